@@ -412,7 +412,13 @@ func newTracker(model *clus.IPFS, st state.State, workers int) *stateless.Tracke
 	cfg.ConcurrentPins = workers
 	cfg.MaxPinQueueSize = 16
 	tr := stateless.New(cfg, selfID, "p0", func(context.Context) (state.ReadOnly, error) { return st, nil })
-	tr.SetClient(clus.LocalRPC(map[string]interface{}{"IPFSConnector": &clus.IPFSSvc{M: model}}))
+	var svc interface{} = &clus.IPFSSvc{M: model}
+	if realConn {
+		var closer func()
+		svc, closer = realService(model)
+		realClosers.Store(tr, closer)
+	}
+	tr.SetClient(clus.LocalRPC(map[string]interface{}{"IPFSConnector": svc}))
 	return tr
 }
 
@@ -603,6 +609,7 @@ func (e *env) close() {
 		synctest.Wait()
 	}
 	e.tr.Shutdown(e.ctx)
+	closeReal(e.tr)
 	synctest.Wait()
 }
 
